@@ -1286,7 +1286,8 @@ Inductive hshape (pc ks : bool) (p : proto) (f : cframe) (s s' : st) (o : list e
 | hs_quiet : did_init s' = did_init s -> subs s' = subs s -> srcs s' = srcs s -> is_bc o ->
              answers_ping pc p f = false -> hshape pc ks p f s s' o
 | hs_accept : did_init s' = true -> subs s' = subs s -> srcs s' = srcs s ->
-              o = VInit true :: VSend SAck None :: ka p -> answers_ping pc p f = false -> hshape pc ks p f s s' o
+              o = VInit true :: VSend SAck None :: ka p -> answers_ping pc p f = false ->
+              (exists id pl, f = Msg TInit id pl /\ init_ok pl = true) -> hshape pc ks p f s s' o
 | hs_reject bc : did_init s' = did_init s -> subs s' = subs s -> srcs s' = srcs s -> is_bc bc ->
                  o = VInit false :: connerr p ++ bc -> answers_ping pc p f = false -> hshape pc ks p f s s' o
 | hs_pong : did_init s' = did_init s -> subs s' = subs s -> srcs s' = srcs s ->
@@ -1303,8 +1304,8 @@ Proof.
   destruct p; destruct f as [|ty id pl]; simpl.
   - intro H. injection H as <- <-. apply hs_quiet; auto; try reflexivity; try congruence. now left.
   - destruct ty; try (intro H; injection H as <- <-; apply hs_quiet; auto; try reflexivity; try congruence; now left).
-    + destruct (init_ok pl).
-      * intro H. injection H as <- <-. apply hs_accept; auto; reflexivity.
+    + destruct (init_ok pl) eqn:IO.
+      * intro H. injection H as <- <-. apply hs_accept; eauto; reflexivity.
       * destruct (begin_closing 1011 s) as [s1 o1] eqn:B. intro H. injection H as <- <-.
         destruct (BC _ _ _ B) as (A1 & A2 & A3 & A4). eapply hs_reject; eauto; reflexivity.
     + intro H. destruct (BC _ _ _ H) as (A1 & A2 & A3 & A4). apply hs_quiet; auto; try reflexivity; try congruence.
@@ -1318,8 +1319,8 @@ Proof.
       * intro H. injection H as <- <-. apply hs_quiet; auto; try reflexivity; try congruence. now left.
   - intro H. destruct (BC _ _ _ H) as (A1 & A2 & A3 & A4). apply hs_quiet; auto; try reflexivity; try congruence.
   - destruct ty; try (intro H; destruct (BC _ _ _ H) as (A1 & A2 & A3 & A4); apply hs_quiet; auto; try reflexivity; try congruence).
-    + destruct (init_ok pl).
-      * intro H. injection H as <- <-. apply hs_accept; auto; reflexivity.
+    + destruct (init_ok pl) eqn:IO.
+      * intro H. injection H as <- <-. apply hs_accept; eauto; reflexivity.
       * destruct (begin_closing 4403 s) as [s1 o1] eqn:B. intro H. injection H as <- <-.
         destruct (BC _ _ _ B) as (A1 & A2 & A3 & A4). eapply hs_reject; eauto; reflexivity.
     + destruct (did_init s) eqn:DI.
